@@ -87,6 +87,12 @@ func c33Corpus() []c33Item {
 			let r <- b.storage.load<@K.R>(from: /storage/r)!; destroy r
 			let xs = b.storage.borrow<auth(Mutate) &[String]>(from: /storage/xs)!
 			var i = 0; while i < 60 { xs.removeLast(); i = i + 1 } } }`)}},
+		{"three-new-accounts", []c33Step{tx([]byte{4, 3, 2}, `transaction { prepare(a: auth(Storage, Capabilities) &Account, b: auth(Storage, Capabilities) &Account, c: auth(Storage, Capabilities) &Account) {
+			c.storage.save("c", to: /storage/v); a.storage.save([1, 2, 3], to: /storage/v); b.storage.save({"k": 1}, to: /storage/v)
+			let cap = b.capabilities.storage.issue<&{String: Int}>(/storage/v); c.capabilities.publish(c.capabilities.storage.issue<&String>(/storage/v), at: /public/v)
+			log(cap.id) } }`),
+			tx([]byte{3, 2, 4}, `transaction { prepare(a: auth(Storage) &Account, b: auth(Storage) &Account, c: auth(Storage) &Account) {
+			let x = a.storage.load<{String: Int}>(from: /storage/v)!; b.storage.save(x, to: /storage/w); c.storage.save(x, to: /storage/w) } }`)}},
 		{"contracts-multi-deploy", []c33Step{tx(both, `transaction { prepare(a: auth(Contracts) &Account, b: auth(Contracts) &Account) {
 			b.contracts.add(name: "Z", code: "access(all) contract Z { access(all) let v: Int; init() { self.v = 1 } }".utf8)
 			a.contracts.add(name: "Y", code: "access(all) contract Y { access(all) let v: Int; init() { self.v = 2 } }".utf8)
